@@ -530,7 +530,7 @@ impl SeqModel for M {
 
 pub fn run(ctx: &Ctx) -> Outcome {
     use rayon::prelude::*;
-    let (len_a, len_b) = ctx.tier.pick((5, 5), (7, 7));
+    let (len_a, len_b) = ctx.tier.pick((5, 5), (8, 9));
     let len_c = len_b;
     let ma = M::new(&ALPHA_WIDE);
     let sa = seq::run(ctx, &ma, "wide", len_a);
